@@ -9,7 +9,7 @@ use std::sync::{Arc, Mutex};
 use std::time::Duration;
 
 use nexosim::model::{BuildContext, Context, InitializedModel, Model, ProtoModel};
-use nexosim::ports::{EventBuffer, EventSlot, EventSource, Output, QuerySource, Requestor};
+use nexosim::ports::{EventBuffer, EventSlot, EventSource, Output, QuerySource, Requestor, UniRequestor};
 use nexosim::simulation::{
     ActionKey, Address, ExecutionError, Mailbox, Scheduler, SchedulingError, SimInit, Simulation,
 };
@@ -436,7 +436,7 @@ pub struct Node {
     pub idx: u16,
     pub spec: Arc<ModelSpec>,
     pub outs: Vec<Output<Msg>>,
-    pub reqs: Vec<Requestor<Msg, Reply>>,
+    pub reqs: Vec<ReqPort>,
     pub slots: Vec<Option<ActionKey>>,
     pub log: Arc<ModelLog>,
     pub shared: Arc<Shared>,
@@ -540,7 +540,11 @@ impl Node {
                         continue;
                     }
                     let c = self.child(m, i, *script, now);
-                    let replies: Vec<Reply> = self.reqs[*req as usize].send(c).await.collect();
+                    let replies: Vec<Reply> = match &mut self.reqs[*req as usize] {
+                        ReqPort::Multi(r) => r.send(c).await.collect(),
+                        // a uni-requestor yields at most one reply (none if its filter rejects)
+                        ReqPort::Uni(r) => r.send(c).await.into_iter().collect(),
+                    };
                     if self.shared.vclock {
                         for r in &replies {
                             merge_vc(&mut self.vc, &r.vc);
@@ -967,6 +971,30 @@ pub fn connect_output(o: &mut Output<Msg>, c: &Conn, t: &Targets) {
     }
 }
 
+/// A requestor port of the scripted model: the broadcasting `Requestor`, or - for ports with
+/// exactly one connection to a model and an even tag - a `UniRequestor`.
+pub enum ReqPort {
+    Multi(Requestor<Msg, Reply>),
+    Uni(UniRequestor<Msg, Reply>),
+}
+
+/// `Some(port)` if this connection list is built as a `UniRequestor`.
+pub fn uni_requestor(conns: &[Conn], t: &Targets) -> Option<UniRequestor<Msg, Reply>> {
+    if conns.len() != 1 || conns[0].tag % 2 != 0 {
+        return None;
+    }
+    let c = &conns[0];
+    if !matches!(c.target, Target::Model(_)) {
+        return None;
+    }
+    let a = t.addr(&c.target)?;
+    Some(match &c.kind {
+        ConnKind::Plain => UniRequestor::new(Node::on_query, a),
+        ConnKind::Map => UniRequestor::with_map(map_fn(c.tag), rmap_fn(c.tag), Node::on_query, a),
+        ConnKind::Filter { .. } => UniRequestor::with_filter_map(filter_fn(c.clone()), rmap_fn(c.tag), Node::on_query, a),
+    })
+}
+
 pub fn connect_requestor(r: &mut Requestor<Msg, Reply>, c: &Conn, t: &Targets) {
     let Some(a) = t.addr(&c.target) else { return };
     match &c.kind {
@@ -1090,11 +1118,15 @@ pub fn build(bench: &Bench, exec: &Exec, opts: &BuildOpts, start: i64) -> Built 
         }
         let mut reqs = Vec::new();
         for conns in &spec.reqs {
+            if let Some(u) = uni_requestor(conns, &targets) {
+                reqs.push(ReqPort::Uni(u));
+                continue;
+            }
             let mut r = Requestor::new();
             for c in conns {
                 connect_requestor(&mut r, c, &targets);
             }
-            reqs.push(r);
+            reqs.push(ReqPort::Multi(r));
         }
         if opts.keep_out_clones {
             out_clones.push(outs.clone());
